@@ -11,7 +11,7 @@ import RV.Base.Proto
                 T.<y>.<mo>.<d>.<h>.<mi>.<s>.<tz minutes|->  (xsd:dateTime)   Y.<y>.<mo>.<d>  (xsd:date)
   query tokens: mod(N|D|R) offset(n|-) limit(n|-) nuser  (-| k (gv i | ga i E | ge E)…)  nproj (pv v | pe v E)…  (0 | 1 E)  nord ((A|D) E)…
   E: v i | c term | + E E | - E E | cmp (lt|gt|eq|ne|le|ge) E E | and E E | agg kind d(0|1) sep(-|s<cps>) (* | E)
-  answer cells: Q.<dt>.<num>.<den>.<scale>  B.0|1  S.<cps>.<langcps>  U.<cps>  N.<cps>  -
+  answer cells: Q.<dt>.<num>.<den>.<scale>  (xsd:double / xsd:float: Q.<dt>.<num>.<den>.L<cps of the lexical form = repr>)  B.0|1  S.<cps>.<langcps>  U.<cps>  N.<cps>  -
 -/
 open RV RV.C08 RV.Proto
 
@@ -35,7 +35,7 @@ def term? (tk : String) : Option Val :=
     let d ← DT.ofName? d
     let m ← m.toInt?
     let s ← s.toNat?
-    pure (some (.num d (mkRat m (pow10 s)) s))
+    pure (some (.num d (F.roundF (mkRat m (pow10 s))) s))   -- `float(lexical)`: the nearest binary64
   | ["B", b] => if b = "1" then some (some (.bool true)) else if b = "0" then some (some (.bool false)) else none
   | ["S", l, g] => do
     let l ← cps? l
@@ -67,7 +67,8 @@ def showVal : Val → String
   | none => "-"
   | some (.bnode l) => "N." ++ showCps l
   | some (.iri s) => "U." ++ showCps s
-  | some (.num d v sc) => s!"Q.{d.name}.{v.num}.{v.den}.{sc}"
+  | some (.num d v sc) =>
+    if d.isFloating then s!"Q.{d.name}.{v.num}.{v.den}.L{showCps (lexOf (.num d v sc))}" else s!"Q.{d.name}.{v.num}.{v.den}.{sc}"
   | some (.bool b) => if b then "B.1" else "B.0"
   | some (.str l g) => s!"S.{showCps l}.{showCps g}"
   | some (.dateTime f) => s!"T.{f.y}.{f.mo}.{f.d}.{f.h}.{f.mi}.{f.s}." ++ (match f.tz with | none => "-" | some z => toString z)
